@@ -183,20 +183,20 @@ NOT_YET = "check not built yet in this session; see DESIGN.md for the planned st
 NOT_APPLICABLE = {}
 
 EXTRA3 = {
- "C01": ("phase-order rule for the augment loop (a bare uses in an augment body is expanded before the augment is applied), write-through rule over the generated setters of shared template nodes, merge rule for the feature set",
-         "Also decided: a module-level augment's own uses are expanded before the augment is inserted; a generated setter never writes through a pointer that clone() copies shallowly; initialising the feature set of one module adds to what earlier modules enabled."),
- "C02": ("return-shape rule for meta.Find (an absolute path starts at the root module of the tree), clone rule without a guard on the per-copy type, and the explicit-number rule (a written value/position is recognised by a flag, never by being > 0)",
-         "Also decided: an absolute leafref path starts at the root of the tree the leaf ended up in; every clone of a leaf-list gets its own type; `value 0` / `position 0` are honoured as written."),
+ "C01": ("phase-order rule for the augment loop (a bare uses in an augment body is expanded before the augment is applied), write-through rule over the generated setters of shared template nodes, merge rule for the feature set, case-members-indexed-in-holder rule (a node added to a case is entered into the name index of the choice's holder), feature-set phase rule (includes before Initialize before own uses)",
+         "Also decided: nodes that reach a case after its choice was added are found by name in the holder; a submodule's features are enabled like the module's own; a module-level augment's own uses are expanded before the augment is inserted; a generated setter never writes through a pointer that clone() copies shallowly; initialising the feature set of one module adds to what earlier modules enabled."),
+ "C02": ("return-shape rule for meta.Find (an absolute path starts at the root module of the tree), clone rule without a guard on the per-copy type, and the explicit-number rule (a written value/position is recognised by a flag, never by being > 0), clone-union-members rule (the copy's Type does not share union member types with the template)",
+         "Also decided: an absolute leafref path starts at the root of the tree the leaf ended up in; every clone of a leaf-list gets its own type; `value 0` / `position 0` are honoured as written; a relative leafref among the members of a union in a grouping resolves per use."),
  "C03": ("emptiness rule for list entries (a pointer to an all-zero struct is an entry), member-kind exhaustiveness of clearChoiceCase, definition-module rule for qualified JSON keys",
          "Also decided: an existing entry whose fields are all zero is still an entry; clearing a case reaches nested choices; a qualified member name is built from the module the definition was written in."),
  "C04": ("qualified-lookup rule for the JSON reader's Choose, key-by-its-own-leaf rule for row reads of compound keys, defaults-on-create rule extended to leaves under a false when",
          "Also decided: the JSON reader's case selection uses the same qualified lookup as its member reads; each key of a compound key is converted with its own leaf's type; a default is not materialised for a leaf whose when is false."),
  "C05": ("numeric-class rule normalising list formats to their single form, reader-errors-surface rule over the XML reader's conversions (no shadowed err)",
          "Also decided: a leaf-list of a numeric type is range-checked as numeric; a conversion error of an XML element is returned, not lost in a shadowed variable."),
- "C06": ("exact-decode rule for double-quoted text (no trimming of the decoded value), merge rule for the feature set, units-inheritance rule testing the node's own units",
-         "Also decided: the decoded text of a quoted string is used as is; a typedef's units are inherited exactly when the node has none."),
- "C07": ("target-in-force-at-use rule for the last navigation request, base-agreement rule over the ListRequests the editor builds, flush rule for every separator of the fields expression parser",
-         "Also decided: the request for the last path segment carries the Target mark when constraints are applied; the editor's source and destination list requests share the request's base; `;` closes the pending alternative at every level."),
+ "C06": ("exact-decode rule for double-quoted text (no trimming of the decoded value), merge rule for the feature set, units-inheritance rule testing the node's own units, comment-end-behind-opener rule for block comments",
+         "Also decided: the decoded text of a quoted string is used as is; a typedef's units are inherited exactly when the node has none; the end of a block comment cannot overlap its opener."),
+ "C07": ("target-in-force-at-use rule for the last navigation request, base-agreement rule over the ListRequests the editor builds, flush rule for every separator of the fields expression parser, constraints-keep-no-tally rule (a constraint writes no field of itself while consulted; one known finding)",
+         "Also decided: the request for the last path segment carries the Target mark when constraints are applied; the editor's source and destination list requests share the request's base; `;` closes the pending alternative at every level; no constraint but fc.max-node-count (known finding) carries state from one read to the next."),
  "C08": ("key-order rule (KeyMeta follows the key statement), where-needs-base rule, lossy-convert rule over String() of 64-bit values",
          "Also decided: compound keys are matched in key-statement order; a where is not evaluated for navigation requests; a uint64 key renders without passing through int."),
  "C09": ("both-sides rule for Tee.Child under delete, field-path rule for embedded struct fields (FieldByIndex), delete-before-descend rule for map-backed nodes",
